@@ -3,7 +3,7 @@
    The strategy models are those of C08 (coq/C08/{Range,RoundRobin,Sticky}.v), the notions are in C13/Model.v. *)
 From Coq Require Import List ZArith.
 From SV Require Import C08.Common C08.Range C08.RoundRobin C08.Sticky C08.Valid C13.Model
-  C13.ProofsRange C13.ProofsRR C13.ProofsStickyBalanced C13.ProofsStickyFixed.
+  C13.ProofsRange C13.ProofsRR C13.ProofsStickyBalanced C13.ProofsStickyFixed C13.ProofsStickyLeave.
 Import ListNotations.
 Open Scope Z_scope.
 
@@ -64,3 +64,13 @@ Theorem c13_sticky_leave_join_keep_partial : forall o ms ts p g pr,
     In x (ca_get (s_ca (pr_s0 pr)) m) \/ In x (ca_get (pr_fixed pr) m).
 Proof. exact preparation_keeps_stated. Qed.
 Print Assumptions c13_sticky_leave_join_keep_partial.
+
+(* sticky is sticky, leave (identical subscriptions): p a valid balanced plan of the group ms, every remaining member reporting
+   what it holds in p (one generation): whatever the iteration order, the plan Plan returns leaves every remaining member
+   everything it had.  Full statement (= sticky_leave_keeps_statement). *)
+Theorem c13_sticky_leave_keeps : forall fuel o ms ts p g leaver p',
+  wf_members ms -> wf_topics ts -> identical_subscriptions ms -> valid_plan ms ts p -> kafka_balanced ms p ->
+  sticky_plan fuel true o (map (report p g) (remaining ms leaver)) ts = SOk p' ->
+  forall m x, m <> leaver -> In x (holds p m) -> In x (holds p' m).
+Proof. exact sticky_leave_keeps. Qed.
+Print Assumptions c13_sticky_leave_keeps.
